@@ -17,6 +17,9 @@ Property theorems over `PdModel.Determinism`:
 * `sortedWith_perm_invariant`, `sortedWith_stable`, per-key theorems (`lc_order_invariant`,
   `alpha_order_invariant_partial` + `alpha_tie_counterexample`, `source_never_mixed`, …),
   `unmaskedAttrs_enum_invariant` — the sort keys of the writers and the inherited-member lists.
+* `addTemplateDir_listing_invariant_partial`, `addTemplateDir_listing_counterexample`,
+  `addTemplateDirSorted_listing_invariant` — `--template-dir`: the lookup is case-insensitive and the
+  directory is walked unsorted.
 * `buildtime_function_of_inputs`, `buildtime_epoch_zero`, … — the footer time is a function of
   (SOURCE_DATE_EPOCH, --buildtime) whenever either is set.
 -/
@@ -1244,6 +1247,164 @@ theorem documentOrder_in_registry_order (allobjects : List (Name × Bool)) :
 theorem documentOrder_visible_only (allobjects : List (Name × Bool)) (n : Name) :
     n ∈ documentOrder allobjects ↔ (n, true) ∈ allobjects := by
   simp [documentOrder]
+
+
+/-! ## the template lookup (`--template-dir`) -/
+
+/-- two lookups that answer every key alike -/
+def LookupExt (d d' : Lookup) : Prop := ∀ k, d.get k = d'.get k
+
+/-- … or both refused -/
+def OptExt : Option Lookup → Option Lookup → Prop
+  | some d, some d' => LookupExt d d'
+  | none, none => True
+  | _, _ => False
+
+theorem lookup_get_cons (d : Lookup) (k : Name) (e : TplEntry) (m : Name) :
+    Lookup.get ((k, e) :: d) m = if k = m then some e else d.get m := by
+  simp [Lookup.get]
+
+theorem addTemplate_ext {d d' : Lookup} (h : LookupExt d d') (t : Tpl) :
+    OptExt (addTemplate d t) (addTemplate d' t) := by
+  unfold addTemplate
+  rw [h t.lower]
+  cases hg : d'.get t.lower with
+  | none =>
+    intro k
+    rw [lookup_get_cons, lookup_get_cons, h k]
+  | some e =>
+    by_cases he : e.html = t.html
+    · simp only [he, if_true]
+      intro k
+      rw [lookup_get_cons, lookup_get_cons, h k]
+    · simp [he, OptExt]
+
+theorem addTemplateDir_ext (l : List Tpl) : ∀ {d d' : Lookup}, LookupExt d d' →
+    OptExt (addTemplateDir d l) (addTemplateDir d' l) := by
+  induction l with
+  | nil => intro d d' h; exact h
+  | cons t rest ih =>
+    intro d d' h
+    have h1 := addTemplate_ext h t
+    simp only [addTemplateDir]
+    cases h2 : addTemplate d t <;> cases h3 : addTemplate d' t <;> rw [h2, h3] at h1
+    · trivial
+    · exact absurd h1 (by simp [OptExt])
+    · exact absurd h1 (by simp [OptExt])
+    · exact ih h1
+
+/-- two templates with different lowered names can be added in either order -/
+theorem addTemplate_swap (d : Lookup) (a b : Tpl) (hab : a.lower ≠ b.lower) :
+    OptExt ((addTemplate d a).bind (fun d₁ => addTemplate d₁ b)) ((addTemplate d b).bind (fun d₁ => addTemplate d₁ a)) := by
+  have hba : b.lower ≠ a.lower := fun h => hab h.symm
+  unfold addTemplate
+  cases hga : d.get a.lower <;> cases hgb : d.get b.lower
+  all_goals simp only [Option.bind, lookup_get_cons, hab, hba, if_false, hga, hgb]
+  · intro k
+    simp only [lookup_get_cons]
+    by_cases h1 : a.lower = k <;> by_cases h2 : b.lower = k <;> simp_all
+  · rename_i eb
+    by_cases h : eb.html = b.html
+    · simp only [h, if_true, lookup_get_cons, hba, if_false, hga]
+      intro k
+      simp only [lookup_get_cons]
+      by_cases h1 : a.lower = k <;> by_cases h2 : b.lower = k <;> simp_all
+    · simp [h, OptExt]
+  · rename_i ea
+    by_cases h : ea.html = a.html
+    · simp only [h, if_true, lookup_get_cons, hab, if_false, hgb]
+      intro k
+      simp only [lookup_get_cons]
+      by_cases h1 : a.lower = k <;> by_cases h2 : b.lower = k <;> simp_all
+    · simp [h, OptExt]
+  · rename_i ea eb
+    by_cases h : ea.html = a.html <;> by_cases h' : eb.html = b.html
+    · simp only [h, h', if_true, lookup_get_cons, hab, hba, if_false, hga, hgb]
+      intro k
+      simp only [lookup_get_cons]
+      by_cases h1 : a.lower = k <;> by_cases h2 : b.lower = k <;> simp_all
+    · simp [h, h', OptExt, lookup_get_cons, hab, hgb]
+    · simp [h, h', OptExt, lookup_get_cons, hba, hga]
+    · simp [h, h', OptExt]
+
+theorem OptExt.trans {a b c : Option Lookup} (h1 : OptExt a b) (h2 : OptExt b c) : OptExt a c := by
+  cases a <;> cases b <;> cases c <;> simp_all [OptExt]
+  intro k; rw [h1 k, h2 k]
+
+theorem OptExt.refl (a : Option Lookup) : OptExt a a := by
+  cases a <;> simp [OptExt, LookupExt]
+
+theorem addTemplateDir_cons (d : Lookup) (t : Tpl) (rest : List Tpl) :
+    addTemplateDir d (t :: rest) = (addTemplate d t).bind (fun d' => addTemplateDir d' rest) := by
+  simp only [addTemplateDir]
+  cases addTemplate d t <;> rfl
+
+theorem addTemplateDir_bind_ext (l : List Tpl) {o o' : Option Lookup} (h : OptExt o o') :
+    OptExt (o.bind (fun d => addTemplateDir d l)) (o'.bind (fun d => addTemplateDir d l)) := by
+  cases o <;> cases o' <;> simp_all [OptExt]
+  exact addTemplateDir_ext l h
+
+/-- **Templates of a directory whose LOWERED names are distinct: the lookup does not depend on the
+order in which the directory is listed.**  (Full statement - "for every directory" - is false of the
+code, which walks `path.iterdir()` unsorted while the lookup is case-insensitive.) -/
+theorem addTemplateDir_listing_invariant_partial {l₁ l₂ : List Tpl} (h : l₁.Perm l₂) :
+    (l₁.map (·.lower)).Nodup → ∀ d d', LookupExt d d' → OptExt (addTemplateDir d l₁) (addTemplateDir d' l₂) := by
+  induction h with
+  | nil => intro _ d d' hd; exact hd
+  | cons a _ ih =>
+    intro hn d d' hd
+    simp only [List.map_cons, List.nodup_cons] at hn
+    rw [addTemplateDir_cons, addTemplateDir_cons]
+    have h1 := addTemplate_ext hd a
+    cases h2 : addTemplate d a <;> cases h3 : addTemplate d' a <;> rw [h2, h3] at h1
+    · trivial
+    · exact absurd h1 (by simp [OptExt])
+    · exact absurd h1 (by simp [OptExt])
+    · exact ih hn.2 _ _ h1
+  | swap a b l =>
+    intro hn d d' hd
+    simp only [List.map_cons, List.nodup_cons, List.mem_cons, not_or] at hn
+    have hab : b.lower ≠ a.lower := hn.1.1
+    simp only [addTemplateDir_cons]
+    have e1 : ((addTemplate d b).bind fun d' => (addTemplate d' a).bind fun d'' => addTemplateDir d'' l)
+        = ((addTemplate d b).bind (fun d₁ => addTemplate d₁ a)).bind (fun d'' => addTemplateDir d'' l) := by
+      cases addTemplate d b <;> rfl
+    have e2 : ((addTemplate d' a).bind fun d₁ => (addTemplate d₁ b).bind fun d'' => addTemplateDir d'' l)
+        = ((addTemplate d' a).bind (fun d₁ => addTemplate d₁ b)).bind (fun d'' => addTemplateDir d'' l) := by
+      cases addTemplate d' a <;> rfl
+    rw [e1, e2]
+    apply addTemplateDir_bind_ext
+    -- first move from d to d', then swap
+    have s1 : OptExt ((addTemplate d b).bind (fun d₁ => addTemplate d₁ a)) ((addTemplate d' b).bind (fun d₁ => addTemplate d₁ a)) := by
+      have h1 := addTemplate_ext hd b
+      cases h2 : addTemplate d b <;> cases h3 : addTemplate d' b <;> rw [h2, h3] at h1
+      · trivial
+      · exact absurd h1 (by simp [OptExt])
+      · exact absurd h1 (by simp [OptExt])
+      · exact addTemplate_ext h1 a
+    exact s1.trans (addTemplate_swap d' b a hab)
+  | trans h₁ _ ih₁ ih₂ =>
+    intro hn d d' hd
+    have hn₂ := (h₁.map (·.lower)).nodup_iff.mp hn
+    exact (ih₁ hn d d (fun _ => rfl)).trans (ih₂ hn₂ d d' hd)
+
+def tplUpper : Tpl := { name := [69], lower := [101], html := false, content := 1 }     -- "E" (Extra.css)
+def tplLower : Tpl := { name := [101], lower := [101], html := false, content := 2 }    -- "e" (extra.css)
+
+/-- two files whose names differ in case only, the two listing orders: the file written has a different
+name AND different bytes -/
+theorem addTemplateDir_listing_counterexample :
+    (addTemplateDir [] [tplUpper, tplLower]).map (·.get [101]) = some (some ⟨[69], false, 2⟩) ∧
+    (addTemplateDir [] [tplLower, tplUpper]).map (·.get [101]) = some (some ⟨[101], false, 1⟩) ∧
+    [tplUpper, tplLower].Perm [tplLower, tplUpper] ∧ tplUpper.name ≠ tplLower.name := by
+  refine ⟨by decide, by decide, List.Perm.swap _ _ _, by decide⟩
+
+/-- with the proposed repair the full statement holds: file names of one directory are distinct -/
+theorem addTemplateDirSorted_listing_invariant {l₁ l₂ : List Tpl} (h : l₁.Perm l₂)
+    (hdistinct : ∀ a ∈ l₁, ∀ b ∈ l₁, a.name = b.name → a = b) (d : Lookup) :
+    addTemplateDirSorted d l₁ = addTemplateDirSorted d l₂ := by
+  unfold addTemplateDirSorted
+  rw [sortedWith_perm_invariant lexLe_isOrder (·.name) h hdistinct]
 
 
 end Determinism
